@@ -43,6 +43,19 @@ def curated():
     add('cse_twins', S({'A1': 1, 'B1': 2, 'D1:E1': {'array': '=A1:B1*2'}, 'D2:E2': {'array': '=A1:B1*20'},
                         'F1': '=SUM(D1:E2)', 'F2': '=D2+E1'}),
         ranges=['S!D1:E2', 'S!D1:E1', 'S!D2:E2', 'S!D1:D2'], tags=['cse'], inputs=['S!A1', 'S!B1'])
+    # float constants whose sum depends on HOW python adds them (compensated summation for plain floats only)
+    add('float_sum', S({'A1': 0.1, 'A2': 0.2, 'A3': 0.3, 'B1': '=SUM(A1:A3)', 'B2': '=AVERAGE(A1:A3)', 'B3': '=B1=0.6', 'C1': '=A1+A2+A3'}),
+        ranges=['S!A1:A3'], inputs=['S!A1', 'S!A3'])
+    # range intersections: the operand ranges are declared precedents that the formula never reads itself
+    add('intersection', S({'A1': 1, 'B1': 2, 'C1': 3, 'A2': 4, 'B2': 5, 'C2': 6, 'E1': '=SUM(A1:B2 B1:C2)', 'E2': '=A:A 2:2',
+                           'F1': '=E1+E2'}),
+        ranges=['S!B1:B2', 'S!A1:B2'], unbounded=['S!A:A'], inputs=['S!B2', 'S!A2', 'S!C1'])
+    # an array formula over a blank: the element is 0 in the member cell AND in the range
+    add('cse_blank', S({'A1': 1, 'A2': 2, 'B1': 4, 'E1:F2': {'array': '=A1:B2'}, 'H1': '=COUNT(E1:F2)', 'H2': '=F2+1'}),
+        ranges=['S!E1:F2', 'S!F1:F2'], tags=['cse'], inputs=['S!A1', 'S!B1'])
+    # the SAME array formula text entered twice, one block on top of the other
+    add('cse_same_text', S({'A1': 1, 'A2': 2, 'C1:C2': {'array': '=A1:A2*2'}, 'C3:C4': {'array': '=A1:A2*2'}, 'E1': '=SUM(C1:C4)'}),
+        ranges=['S!C1:C4', 'S!C1:C2', 'S!C3:C4', 'S!C2:C3'], tags=['cse'], inputs=['S!A1', 'S!A2'])
     add('two_sheets', {'sheets': {'S': {'A1': "='Sheet 1'!A1+1", 'B1': "=SUM('Sheet 1'!A1:A2)"},
                                   'Sheet 1': {'A1': 5, 'A2': 6}}, 'active': 'S'},
         ranges=['Sheet 1!A1:A2'])
